@@ -59,6 +59,17 @@ CHECKS = {
              'well-formedness = accepted without log message and lexically complete; reduced alphabet '
              'without lone surrogates; DOM structure reached only through the listed carriers.',
         design='3 C03'),
+    'C07': dict(
+        text='Bounded symbolic model checking of cssutils/codec.py: the detector on every byte string of length '
+             '<= 4 (all bytes solver variables; plus @charset headers with symbolic names) is proved equal to the '
+             'CSS 2.1 4.4 decision list when final, and when not final its answer is proved to be either "unknown '
+             'yet" or the final answer of every extension (a second symbolic tail); the text-side detector and '
+             'header rewriting on every prefix of the header; encode/decode round trips with symbolic bodies over '
+             'ten encodings (decoding with the encoding given and auto-detected); chunking invariance of the '
+             'incremental decoder and encoder with the cut position a solver variable.',
+        note='Trusted: z3; the pure-Python codec models sx/pycodecs.py standing in for the C codecs (validated '
+             'differentially); getstate/setstate and the stream classes are outside.',
+        design='3 C07'),
     'C09': dict(
         text='Inductive step from an arbitrary valid state: the rule list holds up to N rule objects '
              'whose kind codes are z3 variables constrained only by the invariant the property '
